@@ -67,6 +67,52 @@ impl log::Log for LogSink {
     }
 }
 
+// ---- the same components from a configuration document (RawConfig + appenders_lossy, the path of the file loaders)
+#[derive(serde::Deserialize)]
+struct ScriptedFilterConfig {
+    app: usize,
+    idx: usize,
+    resp: String,
+}
+struct ScriptedFilterDeserializer {
+    calls: Arc<Mutex<Vec<(usize, usize)>>>,
+}
+impl log4rs::config::Deserialize for ScriptedFilterDeserializer {
+    type Trait = dyn Filter;
+    type Config = ScriptedFilterConfig;
+    fn deserialize(&self, c: ScriptedFilterConfig, _: &log4rs::config::Deserializers) -> anyhow::Result<Box<dyn Filter>> {
+        Ok(Box::new(ScriptedFilter { app: c.app, idx: c.idx, resp: c.resp.chars().next().unwrap_or('N'), calls: self.calls.clone() }))
+    }
+}
+#[derive(serde::Deserialize)]
+struct ScriptedAppenderConfig {
+    id: usize,
+    fail: bool,
+    log_sink: bool,
+}
+struct ScriptedAppenderDeserializer {
+    slots: std::collections::HashMap<usize, (Arc<AtomicUsize>, Arc<AtomicUsize>)>,
+}
+impl log4rs::config::Deserialize for ScriptedAppenderDeserializer {
+    type Trait = dyn log4rs::append::Append;
+    type Config = ScriptedAppenderConfig;
+    fn deserialize(&self, c: ScriptedAppenderConfig, _: &log4rs::config::Deserializers) -> anyhow::Result<Box<dyn log4rs::append::Append>> {
+        let (n, fl) = self.slots[&c.id].clone();
+        Ok(if c.log_sink { Box::new(LogSink { n, flushes: fl }) } else { Box::new(ScriptedAppender { n, fail: c.fail, flushes: fl }) })
+    }
+}
+/// entries of a declared chain that cannot be built (Fanout.tla, Effective): each is reported and dropped, the rest
+/// keep their order
+fn unbuildable(k: usize) -> Value {
+    match k % 5 {
+        0 => json!({"kind": "no_such_filter"}),
+        1 => json!({"kind": "threshold", "level": "loud"}),
+        2 => json!({"kind": "threshold"}),
+        3 => json!({"kind": "scripted", "app": "one", "idx": 1, "resp": "R"}),
+        _ => json!({"kind": "scripted", "app": 1, "idx": 1}),
+    }
+}
+
 fn obj_keys_sorted(v: &Value) -> Vec<(usize, &Value)> {
     if let Some(a) = v.as_array() {
         return a.iter().enumerate().map(|(i, x)| (i + 1, x)).collect();
@@ -91,76 +137,139 @@ fn check_case(case: &Value, style: usize) -> Option<Value> {
     let mut counters = vec![];
     let mut flushes = vec![];
     let mut real: Vec<(usize, usize)> = vec![];
-    let mut b = log4rs::Config::builder();
-    for (a, chain) in &chains {
-        let n = Arc::new(AtomicUsize::new(0));
-        let fl = Arc::new(AtomicUsize::new(0));
-        counters.push((*a, n.clone()));
-        flushes.push((*a, fl.clone()));
-        // the chain is declared through the builder in varying styles: filter() one by one, filters() at
-        // once, or a mixture - the declaration order is what counts
-        let mut ab = log4rs::config::Appender::builder();
-        // some Neutral / Reject positions are the real ThresholdFilter (neutral at Info: threshold info or trace;
-        // rejecting: threshold error or warn) - they record no call, so those positions are left out of the
-        // consultation comparison; what they answer still decides the deliveries
-        let fs: Vec<Box<dyn Filter>> = chain
-            .as_array()
-            .unwrap()
-            .iter()
-            .enumerate()
-            .map(|(i, r)| {
+    let via_document = style % 5 == 3;
+    let cfg = if via_document {
+        let mut slots = std::collections::HashMap::new();
+        let mut apps = serde_json::Map::new();
+        let mut broken = 0;
+        for (a, chain) in &chains {
+            let n = Arc::new(AtomicUsize::new(0));
+            let fl = Arc::new(AtomicUsize::new(0));
+            counters.push((*a, n.clone()));
+            flushes.push((*a, fl.clone()));
+            slots.insert(*a, (n, fl));
+            let chain = chain.as_array().unwrap();
+            let mut decl: Vec<Value> = vec![];
+            // where the unbuildable entries sit: before one position of the chain, and (every other time) at its end
+            let at_pos = (style / 5 + *a) % (chain.len() + 1);
+            for (i, r) in chain.iter().enumerate() {
+                if i == at_pos && (style / 10) % 3 != 0 {
+                    decl.push(unbuildable(style / 30 + *a));
+                    broken += 1;
+                }
                 let resp = r.as_str().unwrap().chars().next().unwrap();
                 if resp != 'A' && (style / 12 + *a + i) % 3 == 0 {
                     real.push((*a, i + 1));
                     let lvl = match (resp, (style + i) % 2) {
-                        ('N', 0) => log::LevelFilter::Info,
-                        ('N', _) => log::LevelFilter::Trace,
-                        (_, 0) => log::LevelFilter::Error,
-                        _ => log::LevelFilter::Warn,
+                        ('N', 0) => "info",
+                        ('N', _) => "trace",
+                        (_, 0) => "error",
+                        _ => "warn",
                     };
-                    return Box::new(log4rs::filter::threshold::ThresholdFilter::new(lvl)) as Box<dyn Filter>;
-                }
-                Box::new(ScriptedFilter { app: *a, idx: i + 1, resp, calls: calls.clone() }) as Box<dyn Filter>
-            })
-            .collect();
-        match (style + *a) % 4 {
-            0 => {
-                for f in fs {
-                    ab = ab.filter(f);
+                    decl.push(json!({"kind": "threshold", "level": lvl}));
+                } else {
+                    decl.push(json!({"kind": "scripted", "app": a, "idx": i + 1, "resp": resp.to_string()}));
                 }
             }
-            1 => ab = ab.filters(fs),
-            2 => {
-                let mut it = fs.into_iter();
-                if let Some(first) = it.next() {
-                    ab = ab.filter(first);
-                }
-                ab = ab.filters(it.collect::<Vec<_>>());
+            if (style / 15) % 2 == 0 {
+                decl.push(unbuildable(style / 60 + *a + 1));
+                broken += 1;
             }
-            _ => {
-                let mut fs = fs;
-                let last = fs.pop();
-                ab = ab.filters(fs);
-                if let Some(l) = last {
-                    ab = ab.filter(l);
-                }
-            }
+            let fail = at(&case["outc"], *a) == "Err";
+            apps.insert(a.to_string(), json!({"kind": "scripted_appender", "id": a, "fail": fail, "log_sink": !fail && (style / 4 + *a) % 3 == 1, "filters": decl}));
         }
-        let fail = at(&case["outc"], *a) == "Err";
-        let sink: Box<dyn log4rs::append::Append> = if !fail && (style / 4 + *a) % 3 == 1 {
-            Box::new(LogSink { n, flushes: fl })
-        } else {
-            Box::new(ScriptedAppender { n, fail, flushes: fl })
+        let atts: Vec<String> = case["att"].as_array().unwrap().iter().map(|a| a.as_u64().unwrap().to_string()).collect();
+        let doc = json!({"appenders": apps, "root": {"level": "trace", "appenders": atts}});
+        let raw: log4rs::config::RawConfig = match serde_json::from_value(doc.clone()) {
+            Ok(r) => r,
+            Err(e) => return Some(json!({"what": "configuration document refused", "error": e.to_string(), "document": doc})),
         };
-        b = b.appender(ab.build(a.to_string(), sink));
-    }
-    let mut rb = log4rs::config::Root::builder();
-    for a in case["att"].as_array().unwrap() {
-        rb = rb.appender(a.as_u64().unwrap().to_string());
-    }
-    let cfg = match b.build(rb.build(log::LevelFilter::Trace)) {
-        Ok(c) => c,
-        Err(e) => return Some(json!({"what": "build failed", "error": e.to_string()})),
+        let mut d = log4rs::config::Deserializers::default();
+        d.insert("scripted", ScriptedFilterDeserializer { calls: calls.clone() });
+        d.insert("scripted_appender", ScriptedAppenderDeserializer { slots });
+        let (built, errs) = match catch(|| raw.appenders_lossy(&d)) {
+            Ok(x) => x,
+            Err(p) => return Some(json!({"what": "appenders_lossy panicked", "error": p, "document": doc})),
+        };
+        if errs.is_empty() != (broken == 0) {
+            return Some(json!({"what": "unbuildable filter entries reported", "expected_any": broken > 0, "document": doc}));
+        }
+        match log4rs::Config::builder().appenders(built).loggers(raw.loggers()).build(raw.root()) {
+            Ok(c) => c,
+            Err(e) => return Some(json!({"what": "build failed", "error": e.to_string(), "document": doc})),
+        }
+    } else {
+        let mut b = log4rs::Config::builder();
+        for (a, chain) in &chains {
+            let n = Arc::new(AtomicUsize::new(0));
+            let fl = Arc::new(AtomicUsize::new(0));
+            counters.push((*a, n.clone()));
+            flushes.push((*a, fl.clone()));
+            // the chain is declared through the builder in varying styles: filter() one by one, filters() at
+            // once, or a mixture - the declaration order is what counts
+            let mut ab = log4rs::config::Appender::builder();
+            // some Neutral / Reject positions are the real ThresholdFilter (neutral at Info: threshold info or trace;
+            // rejecting: threshold error or warn) - they record no call, so those positions are left out of the
+            // consultation comparison; what they answer still decides the deliveries
+            let fs: Vec<Box<dyn Filter>> = chain
+                .as_array()
+                .unwrap()
+                .iter()
+                .enumerate()
+                .map(|(i, r)| {
+                    let resp = r.as_str().unwrap().chars().next().unwrap();
+                    if resp != 'A' && (style / 12 + *a + i) % 3 == 0 {
+                        real.push((*a, i + 1));
+                        let lvl = match (resp, (style + i) % 2) {
+                            ('N', 0) => log::LevelFilter::Info,
+                            ('N', _) => log::LevelFilter::Trace,
+                            (_, 0) => log::LevelFilter::Error,
+                            _ => log::LevelFilter::Warn,
+                        };
+                        return Box::new(log4rs::filter::threshold::ThresholdFilter::new(lvl)) as Box<dyn Filter>;
+                    }
+                    Box::new(ScriptedFilter { app: *a, idx: i + 1, resp, calls: calls.clone() }) as Box<dyn Filter>
+                })
+                .collect();
+            match (style + *a) % 4 {
+                0 => {
+                    for f in fs {
+                        ab = ab.filter(f);
+                    }
+                }
+                1 => ab = ab.filters(fs),
+                2 => {
+                    let mut it = fs.into_iter();
+                    if let Some(first) = it.next() {
+                        ab = ab.filter(first);
+                    }
+                    ab = ab.filters(it.collect::<Vec<_>>());
+                }
+                _ => {
+                    let mut fs = fs;
+                    let last = fs.pop();
+                    ab = ab.filters(fs);
+                    if let Some(l) = last {
+                        ab = ab.filter(l);
+                    }
+                }
+            }
+            let fail = at(&case["outc"], *a) == "Err";
+            let sink: Box<dyn log4rs::append::Append> = if !fail && (style / 4 + *a) % 3 == 1 {
+                Box::new(LogSink { n, flushes: fl })
+            } else {
+                Box::new(ScriptedAppender { n, fail, flushes: fl })
+            };
+            b = b.appender(ab.build(a.to_string(), sink));
+        }
+        let mut rb = log4rs::config::Root::builder();
+        for a in case["att"].as_array().unwrap() {
+            rb = rb.appender(a.as_u64().unwrap().to_string());
+        }
+        match b.build(rb.build(log::LevelFilter::Trace)) {
+            Ok(c) => c,
+            Err(e) => return Some(json!({"what": "build failed", "error": e.to_string()})),
+        }
     };
     let h2 = handled.clone();
     let logger = log4rs::Logger::new_with_err_handler(
